@@ -65,17 +65,21 @@ def step (m : Migration) : Stmt → M Migration
   | .addPrimaryKey t cols => do
     let m ← m.addIndex t (pkIndex cols)
     pure (m.using_ t)
-  | .dropPrimaryKey t => pure (m.using_ t)          -- AlterTableDropPrimaryKey: ignored
+  | .dropPrimaryKey t => do
+    let m ← m.removeIndex t "primary_key"
+    pure (m.using_ t)
   | .addFk t name col rt rc => do
     let m ← m.addForeignKey t { name := name, action := .add, table := t, column := col, refTable := rt, refColumn := rc }
     let m := m.using_ t
     pure (m.using_ rt)                               -- the REFERENCES table name is visited last
-  | .dropFk _ _ => .error "nil dereference: AlterTableDropForeignKey reads Specs[i].Constraint.Name"
+  | .dropFk t name => do
+    let m ← m.removeForeignKey t name
+    pure (m.using_ t)
   | .renameIndex t o n => do
     let m ← m.renameIndex t o n
     pure (m.using_ t)
-  | .createIndex t name cols uniq _ => do
-    let m ← m.addIndex t { name := name, action := .add, typ := if uniq then .unique else .none, cols := cols }
+  | .createIndex t name cols uniq usingT => do
+    let m ← m.addIndex t { name := name, action := .add, typ := if uniq then .unique else .none, indexType := usingT, cols := cols }
     pure (m.using_ t)
   | .dropIndex t name => do
     let m ← m.removeIndex t name
